@@ -183,7 +183,7 @@ theorem assembled_is_quadrature_weak_form (d nb : ℕ) (Q : Quad K) (co : Coefs 
 
 /-- the quadrature sum written as the double sum over the cells and the Gauss points -/
 theorem quadSum_is_gauss_sum (Q : Quad K) (a n : ℕ) (g : ℕ → ℕ → K) :
-    quadSum Q (a, a + n) g = ∑ e ∈ range n, ∑ q ∈ range Q.nq, Q.w q * Q.mult * g (a + e) q :=
+    quadSum Q (a, a + n) g = ∑ e ∈ range n, ∑ q ∈ range Q.nq, Q.w q * Q.mult (a + e) * g (a + e) q :=
   quadSum_eq_sum Q a n g
 
 /-- The mass matrix (and the two other matrices kept in reference-shared storage) is symmetric. -/
@@ -197,7 +197,7 @@ theorem mass_symmetric (d nb : ℕ) (Q : Quad K) (co : Coefs K) (P dP : ℕ → 
   exact ⟨trivial, trivial, trivial⟩
 
 /-- concrete data at `ℚ` for the examples: 2 cells, degree 1, 2 Gauss points -/
-def exQuad : Quad ℚ := { ncells := 2, nq := 2, w := fun _ => 1, mult := 1 / 2, x := fun c q => (c : ℚ) + (q + 1) / 3 }
+def exQuad : Quad ℚ := { ncells := 2, nq := 2, w := fun _ => 1, mult := fun _ => 1 / 2, x := fun c q => (c : ℚ) + (q + 1) / 3 }
 def exCo : Coefs ℚ := { A := fun _ _ => -1, B := fun _ _ => 1 / 3, C := fun c _ => c, D := fun _ _ => -2, E := fun _ _ => 1 }
 def exP : ℕ → ℕ → ℕ → ℚ := fun j c q => if j = c then 1 - (q + 1 : ℚ) / 3 else if j = c + 1 then (q + 1 : ℚ) / 3 else 0
 def exdP : ℕ → ℕ → ℕ → ℚ := fun j c _ => if j = c then -1 else if j = c + 1 then 1 else 0
